@@ -30,7 +30,8 @@
       missing") — computed with the model's handler on the empty state, the only use of the model
       here; (F) keys it does not name and other databases keep their view (FLUSHDB / FLUSHALL
       excepted); (D1) a key visible before and after keeps its deadline; (D2) a key not visible
-      before and visible after has no deadline ("does not inherit the old deadline"). *)
+      before and visible after has no deadline ("does not inherit the old deadline"); RENAME old new
+      of a visible key: the new name has the deadline the old name had (and D1/D2 for every other key). *)
 From stdpp Require Import gmap strings.
 From EV Require Import Base.Str Model.Value Model.Keyspace Model.Reply Model.Prog Model.Dispatch Model.Script.
 From EV Require Import Spec.SpecExpiry.
@@ -137,7 +138,30 @@ Definition judge_cmd (now cur : Z) (b a : oks) (argv : list string) (reply : str
         end
       else
         let named (k : string) := bool_decide (k ∈ args) in
+        (* RENAME old new of a visible key moves the deadline with the value: for the new name the
+           expected deadline is the one the old name had (D1/D2 are stated for all other keys). *)
+        let moved : option (string * option Z) :=
+          if String.eqb (lower name) "rename" then
+            match args with
+            | [old; new] => match visible now b cur old with
+                            | Some e => if String.eqb old new then None else Some (new, se_dl e)
+                            | None => None
+                            end
+            | _ => None
+            end
+          else None in
+        let is_moved (d : Z) (k : string) : bool :=
+          match moved with Some (nk, _) => bool_decide (d = cur) && String.eqb k nk | None => false end in
         first_some_s [
+          verdict "rename-did-not-move-the-deadline"
+            (match moved with
+             | Some (nk, dl) =>
+                 match visible now a cur nk with
+                 | Some e' => if bool_decide (se_dl e' = dl) then None else Some (cur, nk)
+                 | None => if String.eqb reply "-" then None else Some (cur, nk)
+                 end
+             | None => None
+             end);
           (* M *)
           (if forallb (fun k => match visible now b cur k with None => true | Some _ => false end) args
            then match handler_of (lower name) with
@@ -155,12 +179,14 @@ Definition judge_cmd (now cur : Z) (b a : oks) (argv : list string) (reply : str
           (* D1, D2 *)
           verdict "deadline-changed-by-non-deadline-command"
             (first_bad b a (fun d k =>
+               if is_moved d k then true else
                match visible now b d k, visible now a d k with
                | Some e, Some e' => bool_decide (se_dl e' = se_dl e)
                | _, _ => true
                end));
           verdict "new-value-inherited-a-deadline"
             (first_bad b a (fun d k =>
+               if is_moved d k then true else
                match visible now b d k, visible now a d k with
                | None, Some e' => bool_decide (se_dl e' = None)
                | _, _ => true
